@@ -53,6 +53,11 @@ impl<T: PartialEq + Eq + Hash> AvailableValueMap<T> {
         self.map.len()
     }
 
+    /// Keep only the entries for which the predicate returns true.
+    pub fn retain(&mut self, f: impl FnMut(&T, &mut AvailableValue) -> bool) {
+        self.map.retain(f);
+    }
+
     /// Extend the available value map with another available value map.
     pub fn extend(&mut self, other: Self) {
         self.map.extend(other.map);
